@@ -7,16 +7,25 @@
                  membership probabilities of the published mixture (weights, means, precisions),
                  widened by a stated bound on the floating-point evaluation error:
                  2^-44 (4 + |ln w sqrt(det P)| + d^2 |x-mu|_inf^2 |P|_max + d^2 |S|_max |P|_max) in the log domain.
+             (d) precisions_chol (read through the serde data model) is, bit for bit, the model's Cholesky
+                 factorisation + pivot guard + forward substitution (C10/FitModel.v at binary64) of the
+                 published covariances - on every fitted model of every stream;
+             (e) fit stream: the whole fit (C10/FitModel.v fit64: `new` from the initial responsibilities the
+                 harness obtains the way `new` does, the EM / n_runs loops, the final match) run at binary64
+                 against the implementation for several (max_n_iterations, n_runs) on degenerate exact inputs:
+                 Ok / GmmError variant, and for Ok weights, means, covariances, precisions_chol bit for bit,
+                 precisions within 2^-44, and the e_step responsibilities of the returned state against
+                 predict_proba on the training data bit for bit.
     oracle : the conjuncts of the verified checker [gmm_ok] (C10/Model.v), one bit each. *)
 From Coq Require Import List NArith ZArith QArith Bool Floats.
-From LinfaVerif Require Export Common.Num Common.NdSum Common.Run Common.QF Common.LDL C10.Model.
+From LinfaVerif Require Export Common.Num Common.NdSum Common.Run Common.QF Common.LDL C10.Model C10.FitModel.
 From Interval Require Specific_bigint Specific_ops Float_full Basic.
 From Bignums Require Import BigZ.
 Import ListNotations.
 
 Definition o64 := B64_ops.
 
-Record case := {
+Record scase := {
   c_id : N;
   c_k : N;
   c_d : N;
@@ -27,26 +36,27 @@ Record case := {
   c_means : list (list float);
   c_covs : list (list (list float));
   c_precs : list (list (list float));
+  c_pchol : list (list (list float));  (* precisions_chol (private field, via serde); [] = not available *)
   c_xproba : list (list float);        (* predict_proba on the training data (exact cases only) *)
   c_query : list (list float);
   c_proba : list (list float);
   c_pred : list N
 }.
 
-Definition fitted_of (c : case) : fitted :=
+Definition fitted_of (c : scase) : fitted :=
   {| m_weights := c_weights c; m_means := c_means c; m_covs := c_covs c; m_precs := c_precs c |}.
 
 (* ---------------------------------------------------------------- (a) exact stream *)
 Definition feq (a b : float) : bool := PrimFloat.eqb a b.     (* numeric equality: +0 = -0 *)
 Definition veq := list_eqb feq.
 Definition meq := list_eqb veq.
-Definition ten_eps : float := 0x1.4p-49%float.                  (* 10 * f64::EPSILON *)
+Definition ten_eps : float := ten_eps64.                        (* 10 * f64::EPSILON *)
 
 Definition one_hot (resp : list (list float)) : bool :=
   forallb (fun r => forallb (fun v => feq v 0%float || feq v 1%float) r
                     && Nat.eqb (length (filter (fun v => feq v 1%float) r)) 1) resp.
 
-Definition corr_exact (c : case) : N :=
+Definition corr_exact (c : scase) : N :=
   if c_exact c then
     if one_hot (c_xproba c) then
       match estimate_gaussian_parameters o64 ten_eps (c_X c) (c_xproba c) (c_reg c) with
@@ -60,7 +70,7 @@ Definition corr_exact (c : case) : N :=
   else 0%N.
 
 (* ---------------------------------------------------------------- (b) predict *)
-Definition corr_predict (c : case) : N :=
+Definition corr_predict (c : scase) : N :=
   flag (list_eqb N.eqb (map (fun row => N.of_nat (argmax_first o64 row)) (c_proba c)) (c_pred c)) 32.
 
 (* ---------------------------------------------------------------- (c) posterior enclosure *)
@@ -224,7 +234,7 @@ Definition post_row (d : nat) (comps : list comp) (Lmax : Q) (x : list Q) (row :
   let tab := contrib_table (map (fun ab => I.add iprec (fst ab) etaI) AB) in
   fold_left N.lor (map (fun kp => post_entry (d40 + 2 * eta) tab (fst kp) (snd kp)) (combine (seq 0 (length row)) row)) 0%N.
 
-Definition corr_posterior (c : case) : N :=
+Definition corr_posterior (c : scase) : N :=
   let m := fitted_of c in
   let k := N.to_nat (c_k c) in let d := N.to_nat (c_d c) in
   if params_finite m && shapes_ok k d m && fin_mat (c_query c) && fin_mat (c_proba c)
@@ -256,10 +266,131 @@ Definition corr_posterior (c : case) : N :=
   else 0%N.   (* malformed outputs are the oracle's business (bits 1, 64) *)
 
 (* ---------------------------------------------------------------- property oracle *)
-Definition oracle (c : case) : N :=
+Definition oracle (c : scase) : N :=
   gmm_bits (c_X c) (N.to_nat (c_k c)) (N.to_nat (c_d c)) (c_reg c) (fitted_of c) (c_query c) (c_proba c) (c_pred c).
 
+(* ---------------------------------------------------------------- (d) precisions_chol *)
+Definition teq := list_eqb meq.
+Definition corr_pchol (covs pchol : list (list (list float))) : N :=
+  match pchol with
+  | [] => 0%N
+  | _ => match prec_chol_full o64 eps64 covs with
+         | Some Ps => flag (teq Ps pchol) 256
+         | None => 256%N
+         end
+  end.
+
+Definition run_scase (c : scase) : verdict :=
+  (c_id c, (N.lor (N.lor (N.lor (corr_exact c) (corr_predict c)) (corr_posterior c)) (corr_pchol (c_covs c) (c_pchol c)),
+            oracle c)).
+
+(* ---------------------------------------------------------------- (e) the whole fit *)
+Record probe := {
+  p_max_iter : N;
+  p_n_runs : N;
+  p_kind : N;                          (* 0 = Ok, 1..8 = variant of GmmError, 100 = panic *)
+  p_w : list float;
+  p_mu : list (list float);
+  p_cov : list (list (list float));
+  p_prec : list (list (list float));
+  p_pchol : list (list (list float));
+  p_xproba : list (list float);        (* predict_proba on the training data *)
+  p_pred : list N                      (* predict on the training data *)
+}.
+Record fcase := {
+  f_id : N;
+  f_k : N;
+  f_d : N;
+  f_reg : float;
+  f_tol : float;
+  f_X : list (list float);
+  f_init : N;                          (* 0 = f_resp0 holds the initial responsibilities; 6 = the k-means
+                                          initialiser returned an error; 100 = it panicked (nothing compared) *)
+  f_resp0 : list (list float);
+  f_dln2pi : float;                    (* n_features as f64 * f64::ln(2 PI) *)
+  f_lntab : list (float * float);      (* (x, f64::ln x) for the weights and diag(precisions_chol) of the returned models *)
+  f_decidable : bool;                  (* harness: the model run must not answer "unknown" *)
+  f_probes : list probe
+}.
+
+(** every table entry (x, y) has x > 0 finite and y within 2^-50 (|y| + 2^-60) of ln x *)
+Definition ln_entry_ok (xy : float * float) : bool :=
+  let '(x, y) := xy in
+  f64_finite x && f64_finite y && PrimFloat.ltb 0%float x &&
+  match Ibounds (I.ln iprec (IQ (f64_Qr x))) with
+  | Some (lo, hi) =>
+      let yq := f64_Qr y in
+      let t := pow2m 50 * (Qabs' yq + pow2m 60) in
+      Qleb (lo - t) yq && Qleb yq (hi + t)
+  | None => false
+  end.
+
+Definition init_of (c : fcase) : res (list (list float)) :=
+  match f_init c with 0%N => ROk (f_resp0 c) | e => RErr e end.
+
+(** closeness of the published precisions to P P^T of the model (a matrix product in the implementation:
+    not reproduced bit for bit): entry by entry within 2^-44 of the largest magnitudes of the two matrices *)
+Definition fmaxabs (M : list (list float)) : Q := maxabs (Qm M).
+Definition mclose (A B : list (list float)) : bool :=
+  fin_mat A && fin_mat B &&
+  let t := d44 * (fmaxabs A + fmaxabs B) in
+  list_eqb (list_eqb (fun a b => Qleb (Qabs' (f64_Qr a - f64_Qr b)) t)) A B.
+Definition tclose := list_eqb mclose.
+
+Definition probe_corr (c : fcase) (p : probe) : N :=
+  match f_init c, p_kind p with
+  | 100%N, _ => 0%N
+  | _, 100%N => 0%N                                          (* a panic is the oracle's business *)
+  | _, _ =>
+      let r := fit64 (f_lntab c) [] (f_dln2pi c) (f_tol c) (N.to_nat (p_max_iter p)) (N.to_nat (p_n_runs p))
+                     (f_X c) (f_reg c) (init_of c) in
+      match r with
+      | RErr 99%N => if f_decidable c then 4096%N else 0%N
+      | RErr e => flag (N.eqb e (p_kind p)) 512
+      | ROk g =>
+          if N.eqb (p_kind p) 0 then
+            (flag (veq (s_w g) (p_w p) && meq (s_mu g) (p_mu p) && teq (s_cov g) (p_cov p)) 1024
+             + flag (teq (s_pchol g) (p_pchol p)) 256
+             + flag (tclose (s_prec g) (p_prec p)) 16384
+             + (* e_step of the returned state: responsibilities = exp(log_resp) against predict_proba(X) *)
+               (if forallb (known_ln64 (f_lntab c)) (ln_args o64 (fexp64 []) (fln64 (f_lntab c)) (-0.5)%float (f_dln2pi c) (f_X c) g)
+                   && forallb (known_exp64 []) (exp_args o64 (fexp64 []) (fln64 (f_lntab c)) (-0.5)%float (f_dln2pi c) (f_X c) g)
+                then flag (meq (map (map (fexp64 [])) (e_lr (e_step_full64 (f_lntab c) [] (f_dln2pi c) (f_X c) g))) (p_xproba p)) 2048
+                else if f_decidable c then 4096%N else 0%N))%N
+          else 512%N
+      end
+  end.
+
+(** the oracle on a returned model: the verified checker with the training data as the query batch *)
+Definition probe_oracle (c : fcase) (p : probe) : N :=
+  if N.eqb (p_kind p) 0 then
+    gmm_bits (f_X c) (N.to_nat (f_k c)) (N.to_nat (f_d c)) (f_reg c)
+             {| m_weights := p_w p; m_means := p_mu p; m_covs := p_cov p; m_precs := p_prec p |}
+             (f_X c) (p_xproba p) (p_pred p)
+  else 0%N.
+
+Definition same_model (p q : probe) : bool :=
+  N.eqb (p_kind p) (p_kind q) && veq (p_w p) (p_w q) && meq (p_mu p) (p_mu q) && teq (p_cov p) (p_cov q)
+  && teq (p_prec p) (p_prec q) && meq (p_xproba p) (p_xproba q) && list_eqb N.eqb (p_pred p) (p_pred q).
+
+(* identical returned models are judged once *)
+Fixpoint oracle_probes (c : fcase) (seen ps : list probe) : N :=
+  match ps with
+  | [] => 0%N
+  | p :: t =>
+      if existsb (same_model p) seen then oracle_probes c seen t
+      else N.lor (probe_oracle c p) (oracle_probes c (p :: seen) t)
+  end.
+
+Definition run_fcase (c : fcase) : verdict :=
+  (f_id c,
+   (N.lor (flag (forallb ln_entry_ok (f_lntab c)) 8192)
+          (fold_left N.lor (map (probe_corr c) (f_probes c)) 0%N),
+    oracle_probes c [] (f_probes c))).
+
+Inductive case := Std (c : scase) | Fit (c : fcase).
+
 Definition run_case (c : case) : verdict :=
-  (c_id c, (N.lor (N.lor (corr_exact c) (corr_predict c)) (corr_posterior c), oracle c)).
+  match c with Std s => run_scase s | Fit f => run_fcase f end.
 
 Definition run_cases (cs : list case) : list N := report (map run_case cs).
